@@ -310,7 +310,11 @@ fn sequences() -> Vec<String> {
         }
     }
     // statements that begin with a negation once redundant parentheses are dropped
-    for second in ["(-a) + g", "(-a)", "(-a).k", "(-a)!", "(-(a + b)) * c", "((-a))", "(-a) via f"] {
+    // ... or with a variable named like a word operator (via / into / where are not reserved)
+    for second in [
+        "(-a) + g", "(-a)", "(-a).k", "(-a)!", "(-(a + b)) * c", "((-a))", "(-a) via f", "(where) - b", "(via) + g", "(into) * 2", "(where) and c", "(via) == 1", "(into) ?? 1", "(where) via f", "(via)", "(into)(1)",
+        "(where).k", "(via)[0]", "(where) -b",
+    ] {
         for first in ["b", "b = 1", "b // c", "// c", "output b = 2"] {
             out.push(format!("{}\n{}", first, second));
             out.push(format!("{}\n\n{}\nc", first, second));
@@ -384,6 +388,14 @@ pub fn run(ctx: &Ctx, replay: Option<&J>, idem: bool) -> i32 {
         "if aaaaaaaaaaaaaaaaaaaa > bbbbbbbbbbbbbbbbb then cccccccccccccccccccc else if dddddddd then eeeeeeeeee else ffffffffffff",
         "xs via (x, i) => do {\n  y = x * 2\n  return y + i\n}",
         "data where (row => row.value > 10 and row.ok) via (row => row.value) into sum",
+        // line-break characters inside string literals and keys, in every multi-line layout path
+        "r = xs via (x => do {\n  s = \"a\r\nb\"\n  return [x, s]\n})",
+        "r = xs where x => do {\n  return \"a\r\nb\" == x\n}",
+        "r = \"p\r\nq\" into (x => do {\n  t = \"c\rd\"\n  return [x, t, \"e\nf\"]\n})",
+        "r = [\"a\r\nb\", \"c\rd\", \"e\nf\", \"\r\n\", \"g\r\n\r\nh\"]",
+        "r = {\"k\r\nk\": \"v\r\n\", j: [\"\r\"]}",
+        "t = f(\"a\r\nb\", g(\"c\r\n\")) via (y => [y, \"\r\n\"])",
+        "u = if \"a\r\nb\" == s then \"x\r\ny\" else do {\n  return \"z\r\n\"\n}",
     ] {
         progs.push(Prog { src: s.to_string(), class: "literal-family".into() });
     }
